@@ -9,7 +9,10 @@ open Mtv.Schema Mtv.TL Mtv.Gen
 
 def isGenerated (m : MethodFact) : Bool := !(wrappers.any fun w => w.name == m.reqFull)
 
+/-- every client method of a chunk: a generated one against registry and schema (`methodOk`: shape and
+body), a hand-written wrapper method against its wrapper (`wrapperMethodOk`) -/
 def methodChunkOk (ch : List MethodFact) : Bool :=
-  (ch.filter isGenerated).all (methodOk TA registry schemaApi)
+  (ch.filter isGenerated).all (methodOk TA registry schemaApi) &&
+  (ch.filter fun m => !isGenerated m).all (wrapperMethodOk wrappers)
 
 end Mtv.C13
